@@ -167,6 +167,14 @@ func (s *script) committeeFor(r *sim.Rand, mf int64) []uint64 {
 	case mfUnknownOperator:
 		c[len(c)-1] = 5000 + uint64(r.Intn(10))
 	}
+	// the rules ask for an existing distinct committee of valid size, not for ascending ids: one event in
+	// four lists its operators (and, position by position, their share keys) in another order
+	if r.Intn(4) == 0 {
+		for i, j := range r.Perm(len(c)) {
+			c[i], c[j] = c[j], c[i]
+		}
+		s.d.Probe("committee-not-ascending")
+	}
 	return c
 }
 
